@@ -203,7 +203,14 @@ impl BuildJob<'_> {
             tmp_base_name.push(".redo.tmp");
             df.do_dir.join(tmp_base_name)
         };
-        helpers::unlink(&tmp_name).map_err(RedoError::opaque_error)?;
+        // A build that was killed may have left anything at $3, including a
+        // directory: remove it, whatever it is.
+        match helpers::unlink(&tmp_name) {
+            Err(Errno::EISDIR) | Err(Errno::EPERM) => {
+                fs::remove_dir_all(&tmp_name).map_err(RedoError::opaque_error)?
+            }
+            r => r.map_err(RedoError::opaque_error)?,
+        }
         let out_file = tempfile::tempfile().map_err(RedoError::opaque_error)?;
         helpers::close_on_exec(out_file.as_raw_fd(), true).map_err(RedoError::opaque_error)?;
         // this will run in the dofile's directory, so use only basenames here
